@@ -9,6 +9,11 @@
 //!       G\tmeta\t0\t<optimized sexp>\t-
 //!       D\t<rule>\t<text hex>\t<checked-in obs (through pest_meta::parser::parse)>\t<vm obs>
 //!       E\t<entry>\t<rule>\t<text hex>\t<obs of that entry>\t<obs it must equal>\t<direct|vm>   only when they differ (see `observe`)
+//!       S\t<entry>\t<rule>\t<text hex>\t<settings before>\t<settings after>   only when a call changed pest's process-wide settings (see `chk`)
+//!     c14 diff REPO 0 0 one RULE HEX / seq FILE   one case / the cases of FILE (lines `rule TAB hex`) in this order in one process (replays)
+//!   c14 readx REPO            F line of this build of the crates only (used for the build with grammar-extras)
+//!   c14 large REPO SEED EPFILE PERCENT [LEAKFILE]   large texts after rejected ones, the caller's settings around every entry; follow-up of
+//!                             a call limit left behind (see the mode)
 //!   c14 freshsrc REPO         source of a program with a #[derive(Parser)] of grammar.pest that appends its own observation to D lines
 //!   c14 freshgen REPO         the same, but the parser is the token stream the in-tree pest_generator::derive_parser returns for grammar.pest
 //!                             (the bootstrap invocation), written out as source: the program depends on the repository's `pest` only
@@ -722,8 +727,8 @@ fn main() {
                             let (mut lo, mut hi) = (0usize, lines.len());
                             while hi - lo > 1 { let mid = (lo + hi) / 2; if bites(mid, &mut c, &mut sink) { hi = mid; } else { lo = mid; } }
                             let at = large::first_rules(&lines, hi).len();
-                            writeln!(w, "LEAKSEARCH\tcall limit {} left behind; it stops the checked-in parser on generated grammars from {} lines / {} bytes on; legs compared on grammars of 80 .. 120 % of that size, the leaking texts fed before each", l, hi, at).unwrap();
-                            let mut ns: Vec<usize> = [80, 90, 95, 98, 100, 105, 120].iter().map(|p| (hi * p / 100).max(1).min(lines.len())).collect();
+                            writeln!(w, "LEAKSEARCH\tcall limit {} left behind; it stops the checked-in parser on generated grammars from {} lines / {} bytes on; legs compared on grammars of 85 .. 110 % of that size, the leaking texts fed before each", l, hi, at).unwrap();
+                            let mut ns: Vec<usize> = [85, 95, 98, 100, 110].iter().map(|p| (hi * p / 100).max(1).min(lines.len())).collect();
                             ns.push(hi.saturating_sub(1).max(1));
                             ns.sort(); ns.dedup();
                             for n in ns { episodes.push((pre.clone(), "grammar_rules".to_string(), large::first_rules(&lines, n))); }
